@@ -35,6 +35,14 @@ def generate(rng, tier):
         sc["ops"].insert(at, {"op": "tamper", "kind": kind, "r": rng.getrandbits(24)})
         sc["ops"].insert(at + 1, explore.gen_readonly(rng, {"tree": sc["world"]["tree"], "nested": []}))
         sc["ops"].insert(at + 2, scen.cmd("flatten", "@R", "@S/out2"))
+    if rng.random() < 0.15 and len(sc["ops"]) > 2:
+        # an interrupted create somewhere in the middle leaves temporary files behind; later read-only commands
+        # must leave them alone as well
+        at = rng.randrange(1, len(sc["ops"]))
+        sc["ops"].insert(at, dict(scen.cmd("create", "@R", "-h", "md5"),
+                                  kill={"at": rng.choice([2, 3, 4, 6, 9]), "mode": rng.choice(["before", "partial", "after"]), "bytes": 3}))
+        for j in range(2):
+            sc["ops"].insert(at + 1 + j, explore.gen_readonly(rng, {"tree": sc["world"]["tree"], "nested": []}))
     return sc
 
 
@@ -123,6 +131,9 @@ def monitor(ctx, st):
                         f"{desc}: new entry {rel} ({ent[0]})")
             return
         for rel in removed:
+            b = os.path.basename(rel)
+            if os.path.basename(os.path.dirname(rel)) == "ascmhl" and not b.endswith(".mhl") and b != "ascmhl_chain.xml":
+                continue  # a stale temporary sibling left by an earlier interrupted run was reused / cleaned up
             ctx.violate({"kind": "create-removed-entry", "cmd": name}, f"{desc}: {rel} removed")
             return
         for rel in changed:
@@ -137,6 +148,8 @@ def monitor(ctx, st):
                     continue  # a directory that just received its first ascmhl sub-folder
             what = "content" if pre[:3] != post[:3] else "mtime" if pre[3] != post[3] else "mode"
             is_manifest = os.path.basename(os.path.dirname(rel)) == "ascmhl"
+            if is_manifest and not b.endswith(".mhl") and b != "ascmhl_chain.xml":
+                continue  # stale temporary sibling overwritten
             ctx.violate({"kind": "create-altered-existing-entry", "cmd": name,
                          "cause": ("manifest-" if is_manifest else "media-") + what},
                         f"{desc}: {rel} {what} changed")
